@@ -1,6 +1,7 @@
 import SkimModel.Driver.C01
 import SkimModel.Driver.C09
 import SkimModel.Driver.C10
+import SkimModel.Driver.C13
 import SkimModel.Driver.C15
 import SkimModel.Driver.C16
 import SkimModel.Driver.C18
@@ -26,6 +27,10 @@ def answer (line : String) : String :=
       | .error e => "error:" ++ e ++ "\terror"
     | "C16" =>
       match C16.handle case impl with
+      | .ok (m, v) => m ++ "\t" ++ v
+      | .error e => "error:" ++ e ++ "\terror"
+    | "C13" =>
+      match C13.handle case impl with
       | .ok (m, v) => m ++ "\t" ++ v
       | .error e => "error:" ++ e ++ "\terror"
     | "C15" => C15.answer case impl
